@@ -136,11 +136,14 @@ var h18cTemplates = []string{
 // (/.well-known/did.json without path) - host and path as DIDToURL gives them (H18a checks those against
 // the id), compared as path element sequences.
 func H18c1() {
-	n := vParam("n", 2)
-	nt := vParam("tmpl", len(h18cTemplates))
+	n := vParam("c_n", 2)
+	nt := vParam("c_tmpl", len(h18cTemplates))
+	if nt > len(h18cTemplates) {
+		nt = len(h18cTemplates)
+	}
 	var idstr string
 	k := vChoice(nt + 1)
-	if only := vParam("only", -1); only >= 0 {
+	if only := vParam("c_only", -1); only >= 0 {
 		vAssume(k == only) // development aid
 	}
 	if k == 0 {
@@ -200,7 +203,7 @@ func H18c1() {
 }
 
 func H18c1_twin() {
-	id := did.DID{Method: "web", ID: "a:" + vString(1)}
+	id := did.DID{Method: "web", ID: "a:" + hIDChars(1)}
 	hServedID = id
 	doer := &hDoer{resp: &http.Response{StatusCode: 200, Status: "200 OK",
 		Header: http.Header{"Content-Type": []string{"application/json"}}, Body: &hBody{data: hServedBody}}}
